@@ -15,6 +15,7 @@ EXPLANATION = (
     "representation attributes are a function of EnumTagType with the holes bound to the IR's own tag/content fields, and "
     "property naming attributes follow StructPropertyRename; "
     "D1 sees through the crate's own token-producing helpers; tabulated matches must have one unguarded arm per case; (D5) a `uniqueItems` array is rendered as an order-preserving sequence (Vec): JSON arrays are ordered, a sorted set would rewrite them."
+    " (D6) wherever a tagged variant is built, its wire name (the first argument of Variant::new, followed through parameters to the callers) has not been through a case conversion or the sanitiser; (D7) in the array conversion every stand-in for an unstated item schema is `true`."
 )
 ASSUMPTIONS = ["serde's handling of default/skip_serializing_if/flatten/rename as documented"]
 
